@@ -336,6 +336,10 @@ def run(tier, seed, replay=None):
                 all_extra += corrupt                    # reported here, not again as a stray below
                 what = "%d concurrent reverse-UDP sessions via %s, %d datagrams of 2500-3900 bytes each (several QUIC packets per datagram)" % (n_storm, pth, per)
                 rp = {"kind": "failing-input", "scenario": what, "stats": storm_stats[-1]}
+                if foreign:
+                    # say what the foreign reply is: another session's datagram delivered intact to the wrong client, or bytes nobody sent
+                    owner = {p_: k for k in res for p_ in res[k][0]}
+                    storm_stats[-1]["foreign_detail"] = [dict(received_by=k, intact_datagram_of=owner.get(g), bytes=len(g), head=g[:32].decode("latin1")) for k, g in foreign[:5]]
                 if corrupt or foreign or dup:
                     ex_ = corrupt[0] if corrupt else (foreign[0][1] if foreign else dup[0])
                     rep.fail("C10: %s: %d datagram(s) reached the origin with a payload nobody sent (a session's head with other bytes behind it), %d reached it twice, %d repl(ies) went to a client that never sent that payload; e.g. %r (%d bytes)" % (
@@ -345,6 +349,42 @@ def run(tier, seed, replay=None):
                     break
                 if attempt == 2:
                     rep.fail("C10: %s: in three runs out of three datagrams were lost (last run: %d never reached the origin, %d replies never came back)" % (what, lost, noreply), rp)
+        # sessions that start at the same instant on one reverse-UDP listener: the session sockets share the listener's address,
+        # a datagram of one new client must never be handled (and answered) by another client's session
+        sim_stats = {}
+        for pth in ("direct", "c_quic_dgram"):
+            K, rounds_s = 8, (25 if tier == "quick" else 150)
+            foreign_s, missing_s, total_s = [], 0, 0
+            for r_ in range(rounds_s):
+                socks_ = [socket.socket(socket.AF_INET, socket.SOCK_DGRAM) for _ in range(K)]
+                for s_ in socks_:
+                    s_.bind((LOOP, 0))
+                    s_.settimeout(0.5)
+                pls = [[b"sim-%s-%d-%d-%d" % (pth.encode(), r_, k, i) for i in range(3)] for k in range(K)]
+                for i in range(3):
+                    for k, s_ in enumerate(socks_):
+                        s_.sendto(pls[k][i], (LOOP, w.rev[pth]))
+                for k, s_ in enumerate(socks_):
+                    got_ = []
+                    try:
+                        while len(got_) < 3:
+                            got_.append(s_.recvfrom(70000)[0])
+                    except (socket.timeout, OSError):
+                        pass
+                    total_s += 3
+                    missing_s += len([x for x in pls[k] if x not in got_])
+                    foreign_s += [(k, g) for g in got_ if g not in pls[k]]
+                    all_extra += pls[k]
+                    s_.close()
+            n_eval += 1
+            dist["simultaneous-start|" + pth] += total_s
+            sim_stats[pth] = dict(rounds=rounds_s, sessions_per_round=K, datagrams=total_s, replies_missing=missing_s, replies_at_another_client=len(foreign_s))
+            if foreign_s:
+                rep.fail("C10: %d rounds of %d reverse-UDP sessions via %s starting at the same moment: %d replies were delivered to the client of ANOTHER session, e.g. client %d received %r" % (
+                    rounds_s, K, pth, len(foreign_s), foreign_s[0][0], foreign_s[0][1][:40]), {"kind": "failing-input", "scenario": "simultaneous session starts", "path": pth, "stats": sim_stats[pth]})
+            elif missing_s:
+                rep.fail("C10: %d rounds of %d reverse-UDP sessions via %s starting at the same moment: %d of %d datagrams got no reply" % (rounds_s, K, pth, missing_s, total_s),
+                         {"kind": "failing-input", "scenario": "simultaneous session starts", "path": pth, "stats": sim_stats[pth]}, tags=["C10-simultaneous-start-first-datagrams-lost"])
         # destinations of both address families through ONE association, on every path (the exit's socket must reach both, and
         # label each reply with the address that replied)
         import c06 as _c06
@@ -631,7 +671,7 @@ def run(tier, seed, replay=None):
         "datagram_hop_cases": len(lines2), "datagram_hop_disagreements": n_hop_diff,
         "evaluations": n_eval, "distinct_nontrivial": len(shapes),
         "rule": "sessions: reverse UDP client, SOCKS5 UDP association with IPv4 destination, with domain destination (through hops) x paths %s, 3-8 datagrams of 1..8000 bytes each with gaps 0/10/50 ms, 10 sessions in flight at a time with session-tagged payloads; one empty datagram; a hand-written HTTP CONNECT udp/inline client (frames from the model's encoder) that waits for the 200 or sends its first 1-3 frames (17..20000 bytes) in the same write as the request; 5 (thorough 8) concurrent sessions on one QUIC connection (datagram and inline mode) sending 120 (300) datagrams of 2500-3900 bytes each every 4 ms; a session whose TCP client stops reading while a chatty origin sends it 12000 datagrams, next to a session on the same path that must keep being served (QUIC datagram, QUIC inline, HTTP paths); driver op dgram_hop: 400 (thorough 6000) runs of the real sender half + fragmenter + one reassembly table on 1-6 writes of 1-4 sessions, datagram sizes 12..1200, ids shared (incl. wrap at 65535) or per writer, schedules complete / lossy / with duplicates, against the extracted QuicDgram.v" % uw.PATHS,
-        "input_distribution": dict(dist), "datagrams_at_origin": len(rx), "sessions_retried": retried, "concurrent_large_datagram_runs": storm_stats, "stalled_neighbour_runs": neighbours,
+        "input_distribution": dict(dist), "datagrams_at_origin": len(rx), "sessions_retried": retried, "concurrent_large_datagram_runs": storm_stats, "simultaneous_session_starts": sim_stats, "stalled_neighbour_runs": neighbours,
     })
     rep.assumptions = ["loopback UDP and QUIC datagrams may drop under concurrent load: a failing session is repeated alone twice and reported only if it fails every time", "the RSV bytes of the SOCKS5 UDP reply header (05 03 instead of 00 00) are not part of the property"]
     if broken and not rep.violations:
